@@ -171,8 +171,8 @@ package db
 //@ smt record
 //@ (define-fun serial_ok ((t (_ BitVec 64))) Bool (and (bvsge t #x0000000000000000) (not (= t #x000000000000000a)) (not (= t #x000000000000000b))))
 //@ (define-fun serial_size ((t (_ BitVec 64))) (_ BitVec 64) (ite (= t #x0000000000000000) #x0000000000000000 (ite (= t #x0000000000000001) #x0000000000000001 (ite (= t #x0000000000000002) #x0000000000000002 (ite (= t #x0000000000000003) #x0000000000000003 (ite (= t #x0000000000000004) #x0000000000000004 (ite (= t #x0000000000000005) #x0000000000000006 (ite (= t #x0000000000000006) #x0000000000000008 (ite (= t #x0000000000000007) #x0000000000000008 (ite (= t #x0000000000000008) #x0000000000000000 (ite (= t #x0000000000000009) #x0000000000000000 (bvlshr (bvsub t (ite (= ((_ extract 0 0) t) #b0) #x000000000000000c #x000000000000000d)) #x0000000000000001))))))))))))
-//@ (define-fun serial_value ((t (_ BitVec 64)) (a (Array (_ BitVec 64) (_ BitVec 8))) (b Slice)) Iface (ite (= t #x0000000000000000) if_nil (ite (= t #x0000000000000001) (if_int64 ((_ sign_extend 56) (select a (bvadd (s_off b) #x0000000000000000)))) (ite (= t #x0000000000000002) (if_int64 ((_ sign_extend 48) (concat (select a (bvadd (s_off b) #x0000000000000000)) (select a (bvadd (s_off b) #x0000000000000001))))) (ite (= t #x0000000000000003) (if_int64 (twos24 a (s_off b))) (ite (= t #x0000000000000004) (if_int64 ((_ sign_extend 32) (concat (select a (bvadd (s_off b) #x0000000000000000)) (select a (bvadd (s_off b) #x0000000000000001)) (select a (bvadd (s_off b) #x0000000000000002)) (select a (bvadd (s_off b) #x0000000000000003))))) (ite (= t #x0000000000000005) (if_int64 (twos48 a (s_off b))) (ite (= t #x0000000000000006) (if_int64 (be64 a (s_off b))) (ite (= t #x0000000000000007) (if_float64 ((_ to_fp 11 53) (be64 a (s_off b)))) (ite (= t #x0000000000000008) (if_int64 #x0000000000000000) (ite (= t #x0000000000000009) (if_int64 #x0000000000000001) (ite (= ((_ extract 0 0) t) #b0) (if_LRbyte (mk_slice (s_reg b) (s_off b) (serial_size t) (s_cap b))) (if_string (mk_str a (s_off b) (serial_size t)))))))))))))))
-//@ (define-fun storable ((v Iface)) Bool (or ((_ is if_nil) v) ((_ is if_int64) v) ((_ is if_float64) v) ((_ is if_string) v) ((_ is if_LRbyte) v)))
+//@ (define-fun serial_value ((t (_ BitVec 64)) (a (Array (_ BitVec 64) (_ BitVec 8))) (b Slice)) Iface (ite (= t #x0000000000000000) if_nil (ite (= t #x0000000000000001) (if_int64 ((_ sign_extend 56) (select a (bvadd (s_off b) #x0000000000000000)))) (ite (= t #x0000000000000002) (if_int64 ((_ sign_extend 48) (concat (select a (bvadd (s_off b) #x0000000000000000)) (select a (bvadd (s_off b) #x0000000000000001))))) (ite (= t #x0000000000000003) (if_int64 (twos24 a (s_off b))) (ite (= t #x0000000000000004) (if_int64 ((_ sign_extend 32) (concat (select a (bvadd (s_off b) #x0000000000000000)) (select a (bvadd (s_off b) #x0000000000000001)) (select a (bvadd (s_off b) #x0000000000000002)) (select a (bvadd (s_off b) #x0000000000000003))))) (ite (= t #x0000000000000005) (if_int64 (twos48 a (s_off b))) (ite (= t #x0000000000000006) (if_int64 (be64 a (s_off b))) (ite (= t #x0000000000000007) (if_float64 ((_ to_fp 11 53) (be64 a (s_off b)))) (ite (= t #x0000000000000008) (if_int64 #x0000000000000000) (ite (= t #x0000000000000009) (if_int64 #x0000000000000001) (ite (= ((_ extract 0 0) t) #b0) (if_LRuint8 (mk_slice (s_reg b) (s_off b) (serial_size t) (s_cap b))) (if_string (mk_str a (s_off b) (serial_size t)))))))))))))))
+//@ (define-fun storable ((v Iface)) Bool (or ((_ is if_nil) v) ((_ is if_int64) v) ((_ is if_float64) v) ((_ is if_string) v) ((_ is if_LRuint8) v)))
 
 //@ func db.parseRecord
 //@   props C14 C01 C02 C05
@@ -220,3 +220,77 @@ package db
 //@   loop 1 invariant 0 <= $i && $i <= 20
 //@   loop 1 invariant forall p int :: 72 <= p && p < 72 + $i ==> byte_at(mem(b), off(b), p) == 0
 //@   loop 1 decreases 20 - $i
+
+// ---------------------------------------------------------------------------------------
+// Comparison (datatype3.html section 4.1 and sqlite3MemCompare / sqlite3IntFloatCompare):
+// NULL < numbers < text < blobs; integers and reals by exact numeric value; text through the
+// collation function; blobs bytewise (bytes.Compare, assumed contract).
+//
+//@ smt compare
+//@ (declare-fun coll_apply (Int Str Str) (_ BitVec 64))
+//@ (declare-fun bytes_cmp ((Array (_ BitVec 64) (_ BitVec 8)) (_ BitVec 64) (_ BitVec 64) (Array (_ BitVec 64) (_ BitVec 8)) (_ BitVec 64) (_ BitVec 64)) (_ BitVec 64))
+//@ (define-fun vclass ((v Iface)) Int (ite ((_ is if_nil) v) 0 (ite (or ((_ is if_int64) v) ((_ is if_float64) v)) 1 (ite ((_ is if_string) v) 2 3))))
+//@ (define-fun cmp_i64 ((a (_ BitVec 64)) (b (_ BitVec 64))) (_ BitVec 64) (ite (bvslt a b) #xffffffffffffffff (ite (= a b) #x0000000000000000 #x0000000000000001)))
+//@ (define-fun cmp_f64 ((a (_ FloatingPoint 11 53)) (b (_ FloatingPoint 11 53))) (_ BitVec 64) (ite (fp.lt a b) #xffffffffffffffff (ite (fp.eq a b) #x0000000000000000 #x0000000000000001)))
+//@ (define-fun cmp_int_float ((i (_ BitVec 64)) (r (_ FloatingPoint 11 53))) (_ BitVec 64) (ite (fp.lt r ((_ to_fp 11 53) #xc3e0000000000000)) #x0000000000000001 (ite (fp.geq r ((_ to_fp 11 53) #x43e0000000000000)) #xffffffffffffffff (ite (bvslt i ((_ fp.to_sbv 64) RTZ r)) #xffffffffffffffff (ite (bvsgt i ((_ fp.to_sbv 64) RTZ r)) #x0000000000000001 (cmp_f64 ((_ to_fp 11 53) RNE i) r))))))
+//@ (define-fun cmp_num ((a Iface) (b Iface)) (_ BitVec 64) (ite ((_ is if_int64) a) (ite ((_ is if_int64) b) (cmp_i64 (ifv_int64 a) (ifv_int64 b)) (cmp_int_float (ifv_int64 a) (ifv_float64 b))) (ite ((_ is if_int64) b) (bvneg (cmp_int_float (ifv_int64 b) (ifv_float64 a))) (cmp_f64 (ifv_float64 a) (ifv_float64 b)))))
+//@ (declare-fun cmp_val (Iface Iface Int (Array Int (Array (_ BitVec 64) (_ BitVec 8)))) (_ BitVec 64))
+//@ (define-fun no_nan ((v Iface)) Bool (=> ((_ is if_float64) v) (not (fp.isNaN (ifv_float64 v)))))
+
+// Definition of cmp_val, revealed only where it is needed (the proof of compare itself and the order lemmas).
+//@ axioms cmp_val_def
+//@ (assert (forall ((a Iface) (b Iface) (c Int) (m (Array Int (Array (_ BitVec 64) (_ BitVec 8))))) (! (= (cmp_val a b c m) (ite (< (vclass a) (vclass b)) #xffffffffffffffff (ite (> (vclass a) (vclass b)) #x0000000000000001 (ite (= (vclass a) 0) #x0000000000000000 (ite (= (vclass a) 1) (cmp_num a b) (ite (= (vclass a) 2) (coll_apply c (ifv_string a) (ifv_string b)) (bytes_cmp (select m (s_reg (ifv_LRuint8 a))) (s_off (ifv_LRuint8 a)) (s_len (ifv_LRuint8 a)) (select m (s_reg (ifv_LRuint8 b))) (s_off (ifv_LRuint8 b)) (s_len (ifv_LRuint8 b))))))))) :pattern ((cmp_val a b c m)))))
+
+//@ functype db.collate
+//@   pure
+//@   ensures result == coll_apply(self, a0, a1)
+
+//@ func db.cmpInt64
+//@   props C11 C03 C13
+//@   pure
+//@   ensures result == cmp_i64(a, b)
+
+//@ func db.cmpFloat64
+//@   props C11 C03 C13
+//@   pure
+//@   requires !isnan(a) && !isnan(b)
+//@   ensures result == cmp_f64(a, b)
+
+//@ func db.compare
+//@   props C11 C03 C13 C05
+//@   pure
+//@   requires storable(a) && storable(b) && no_nan(a) && no_nan(b)
+//@   requires c != nil
+//@   uses cmp_val_def
+//@   ensures [order] result == cmp_val(a, b, c, allmem())
+
+//@ func db.cmpIntFloat
+//@   props C11 C03 C13
+//@   pure
+//@   requires !isnan(f)
+//@   ensures result == cmp_int_float(i, f)
+
+// Key/record predicates. KEYCMP(k, v): comparison of one key column with one record field under
+// the column's collation (DefaultCollate when none is named).
+//@ macro COLLFN(k) = CollateFuncs[ite(len(k.Collate) == 0, DefaultCollate, k.Collate)]
+//@ macro KEYCMP(k, v) = cmp_val(k.V, v, COLLFN(k), allmem())
+//@ macro ALLEQ(key, r, n) = (forall qa int :: 0 <= qa && qa < n ==> qa < len(r) && KEYCMP(key[qa], r[qa]) == 0)
+//@ macro KEYOK(key) = (forall qk int :: 0 <= qk && qk < len(key) ==> storable(key[qk].V) && no_nan(key[qk].V) && COLLFN(key[qk]) != nil)
+//@ macro RECOK(r) = (forall qr int :: 0 <= qr && qr < len(r) ==> storable(r[qr]) && no_nan(r[qr]))
+
+//@ func db.Equals
+//@   props C11 C03 C13 C05
+//@   pure
+//@   requires KEYOK(key) && RECOK(r)
+//@   ensures [iff] result <==> ALLEQ(key, r, len(key))
+//@   loop 1 invariant 0 <= $i && $i <= len(key) && ALLEQ(key, r, $i)
+//@   loop 1 decreases len(key) - $i
+
+//@ func db.Search
+//@   props C11 C03 C13 C05
+//@   pure
+//@   requires KEYOK(key) && RECOK(r)
+//@   ensures [true] result ==> ALLEQ(key, r, len(key)) || (exists d int := $i :: 0 <= d && d < len(key) && ALLEQ(key, r, d) && d < len(r) && ite(key[d].Desc, KEYCMP(key[d], r[d]) > 0, KEYCMP(key[d], r[d]) < 0))
+//@   ensures [false] !result ==> (exists d int := $i :: 0 <= d && d < len(key) && ALLEQ(key, r, d) && (d >= len(r) || ite(key[d].Desc, KEYCMP(key[d], r[d]) < 0, KEYCMP(key[d], r[d]) > 0)))
+//@   loop 1 invariant 0 <= $i && $i <= len(key) && ALLEQ(key, r, $i)
+//@   loop 1 decreases len(key) - $i
